@@ -2,9 +2,10 @@
 # build /repo's current working tree with the verification hooks on
 # (opt-level 1, overflow checks + debug assertions ON so arithmetic underflow panics)
 set -e
-cd /repo
+V=$(cd "$(dirname "$0")" && pwd)
+cd "${LAZE_REPO:-/repo}"
 CARGO_NET_OFFLINE=true RUSTFLAGS="--cfg kaspar030_laze_verif" exec cargo build --offline --release \
-  --target-dir /verif/.build/target \
+  --target-dir "$V/.build/target" \
   --config 'profile.release.lto="off"' --config 'profile.release.opt-level=1' \
   --config 'profile.release.overflow-checks=true' --config 'profile.release.debug-assertions=true' \
   --config 'profile.release.codegen-units=16' --config 'profile.release.incremental=true' \
